@@ -308,7 +308,7 @@ class C07(Check):
                 sigs.add(v["sig"])
                 uniq.append(v)
         return base_result(sim, uniq, summary=dict(stats),
-                           extra={"coalesced_base": stats["coalesced_base"], "reconnects": stats["reconnects"],
+                           extra={"abstract_states": sorted(w.abstract_states), "coalesced_base": stats["coalesced_base"], "reconnects": stats["reconnects"],
                                   "boundary_ids": stats["boundary_ids"],
                                   "faults": {"coalesced_base_requests": stats["coalesced_base"], "reconnect": stats["reconnects"],
                                              "boundary_identifier": stats["boundary_ids"],
